@@ -24,7 +24,7 @@ LEVEL_TEXT = (
     "zone) for fresh_time and for the stores of a small world (source -> stored -> stored, plus an independent stored "
     "node); for each instant tuple the process time zone is ENUMERATED over 8 zones (os.environ['TZ'] + time.tzset()) and "
     "the representation of every datetime over a generated set of assignments from {naive local via fromtimestamp (carries "
-    "fold), aware UTC, aware fixed offset, aware zoneinfo zone} plus the four uniform assignments. Metamorphic/differential "
+    "fold), aware UTC, aware fixed offset, aware zoneinfo zone, bundled file store (real file, mtime set with os.utime, the library's own get_modified_time)} plus the five uniform assignments. Metamorphic/differential "
     "oracle: the set of stores rewritten must equal the set computed from the integer instants in every cell. Bounded; "
     "presence not absence."
 )
